@@ -87,7 +87,7 @@ def ocaml_build(force=False):
     d = os.path.join(BUILD, "ocaml")
     exe = os.path.join(d, "modelrun")
     srcs = [os.path.join(COQ, f) for f in os.listdir(COQ) if f.endswith(".vo")] + \
-           [os.path.join(VERIF, "ocaml", "modelrun.ml"), os.path.join(VERIF, "ocaml", "tabrun.ml"), os.path.join(VERIF, "ocaml", "xrun.ml"), os.path.join(COQ, "Extract.v")]
+           [os.path.join(VERIF, "ocaml", "modelrun.ml"), os.path.join(VERIF, "ocaml", "tabrun.ml"), os.path.join(VERIF, "ocaml", "xrun.ml"), os.path.join(VERIF, "ocaml", "xruns.ml"), os.path.join(COQ, "Extract.v")]
     if not force and os.path.exists(exe) and all(os.path.getmtime(exe) >= os.path.getmtime(s) for s in srcs if os.path.exists(s)):
         return exe, "cached"
     os.makedirs(d, exist_ok=True)
@@ -97,9 +97,11 @@ def ocaml_build(force=False):
     shutil.copy(os.path.join(VERIF, "ocaml", "modelrun.ml"), d)
     shutil.copy(os.path.join(VERIF, "ocaml", "tabrun.ml"), d)
     shutil.copy(os.path.join(VERIF, "ocaml", "xrun.ml"), d)
+    shutil.copy(os.path.join(VERIF, "ocaml", "xruns.ml"), d)
     rc, out2, err2 = sh("ocamlfind ocamlopt -O2 -w -a model.mli model.ml modelrun.ml -o modelrun && "
                         "ocamlfind ocamlopt -O2 -w -a model.mli model.ml tabrun.ml -o tabrun && "
-                        "ocamlfind ocamlopt -O2 -w -a model.mli model.ml xrun.ml -o xrun", cwd=d, timeout=600)
+                        "ocamlfind ocamlopt -O2 -w -a model.mli model.ml xrun.ml -o xrun && "
+                        "ocamlfind ocamlopt -O2 -w -a model.mli model.ml xruns.ml -o xruns", cwd=d, timeout=600)
     if rc != 0:
         return None, out + err + out2 + err2
     return exe, out + err + out2 + err2
